@@ -188,6 +188,8 @@ def rule_segloop(ctx):
                 ctx.ob("SEGLOOP", I("unexpected return shape"), False, fn=key, site=r["site"], detail=k)
 
 
+THOROUGH_FS = ["pt", "none", "serde"]
+
 RULES = [("SEGLOOP", rule_segloop, 36)]
 
 MANIFEST = {
